@@ -113,15 +113,31 @@ type zstdByteStreamWriter struct {
 	resourceName string
 	writeOffset  int64
 	cancel       context.CancelFunc
+	err          error
+}
+
+// fail terminates the call after Send() failed and returns the error
+// that should be reported: the status returned by the server if there
+// is one, as Send() merely returns io.EOF in that case.
+func (w *zstdByteStreamWriter) fail(sendErr error) error {
+	w.cancel()
+	if _, err := w.client.CloseAndRecv(); err != nil {
+		return err
+	}
+	return sendErr
 }
 
 func (w *zstdByteStreamWriter) Write(p []byte) (int, error) {
+	if w.err != nil {
+		return 0, w.err
+	}
 	if err := w.client.Send(&bytestream.WriteRequest{
 		ResourceName: w.resourceName,
 		WriteOffset:  w.writeOffset,
 		Data:         p,
 	}); err != nil {
-		return 0, err
+		w.err = w.fail(err)
+		return 0, w.err
 	}
 	w.writeOffset += int64(len(p))
 	w.resourceName = ""
@@ -129,14 +145,16 @@ func (w *zstdByteStreamWriter) Write(p []byte) (int, error) {
 }
 
 func (w *zstdByteStreamWriter) Close() error {
+	if w.err != nil {
+		return w.err
+	}
 	if err := w.client.Send(&bytestream.WriteRequest{
 		ResourceName: w.resourceName,
 		WriteOffset:  w.writeOffset,
 		FinishWrite:  true,
 	}); err != nil {
-		w.cancel()
-		w.client.CloseAndRecv()
-		return err
+		w.err = w.fail(err)
+		return w.err
 	}
 	_, err := w.client.CloseAndRecv()
 	w.cancel()
